@@ -173,7 +173,7 @@ func installBody(r *explore.Run, rep *report.R, sc string, ci, flags, maxPerm in
 	if !ref.nothing {
 		nt = report.Hash("install", constraint, fmt.Sprint(tags))
 	}
-	rep.Eval(sc, report.Hash("install", got, o.resolved, o.err != nil), nt)
+	evalCase(rep, sc, report.Hash("install", got, o.resolved, o.err != nil), nt)
 	if nt != "" && len(tags) >= 3 && len(ref.tags) > 0 && wantSample(rep, "install") {
 		rep.Sample(map[string]any{"part": "install", "constraint": constraint, "tags": tags, "flags": flags, "selected": got, "reference": ref.String(), "choices": append([]int{}, r.Choices...), "scenario": sc})
 	}
@@ -275,7 +275,7 @@ func upgradeBody(r *explore.Run, rep *report.R, sc string, c1, ii, maxPerm int, 
 			r.Failf("upgrade/created-package", "%s: resolver created a package: %v", ctx, o.writes)
 		}
 	}
-	rep.Eval(sc, report.Hash("upgrade", class, got, o.resolved, o.err != nil), nt)
+	evalCase(rep, sc, report.Hash("upgrade", class, got, o.resolved, o.err != nil), nt)
 	if nt != "" && len(tags) >= 3 && len(parents) == 2 && got != installed && wantSample(rep, "upgrade") {
 		rep.Sample(map[string]any{"part": "upgrade", "installed": installed, "in_lock": inLock, "parent_constraints": parents, "tags": tags, "flags": flags, "selected": got, "choices": append([]int{}, r.Choices...), "scenario": sc})
 	}
@@ -305,5 +305,5 @@ func nonSemverInstalledBody(r *explore.Run, rep *report.R, sc string) {
 	if isDigest(constraint) && got != constraint {
 		r.Failf("upgrade/digest-not-pinned", "%s: version is %q", ctx, got)
 	}
-	rep.Eval(sc, report.Hash("nonsemver", got, o.resolved, o.err != nil), report.Hash("nonsemver", installed, constraint, flags))
+	evalCase(rep, sc, report.Hash("nonsemver", got, o.resolved, o.err != nil), report.Hash("nonsemver", installed, constraint, flags))
 }
